@@ -170,7 +170,7 @@ def run(chk):
                        "expressions of the shape  Identifier '<' ... '>' Identifier  at a statement start or after '(' are excluded from "
                        "generation: the parser's generic-type lookahead claims them (known finding " + KNOWN_FALSE_TYPEAHEAD + ")"]
     import translate_tables
-    chk.prove(generated=[translate_tables.keywords, translate_tables.binding_table])
+    chk.prove(generated=[translate_tables.keywords, translate_tables.binding_table, translate_tables.parser_constants])
     rng = chk.rng
     cases = []        # (source bytes, expected nested list or None)
     leaves = [("var", "a"), ("lit", "1", "int")]
